@@ -212,20 +212,21 @@ def h_repeats(p: int, sorted_flag: bool) -> bool:
     return pos == sorted(pos) and ev.to_ical(sorted=sorted_flag) == ev.to_ical(sorted=sorted_flag)
 
 
-def h_datetime_pure(kind: int) -> bool:
+def h_datetime_pure(kind: int, nparams: int) -> bool:
     """
     vDatetime.to_ical() used directly (it writes TZID into its own params while rendering):
     a second call gives the same bytes, and the component holding it serialises identically
     before and after.
 
-    pre: 0 <= kind <= 2
+    pre: 0 <= kind <= 2 and 0 <= nparams <= 3
     post: _
     """
     dt = [datetime(2020, 1, 1, 10), datetime(2020, 1, 1, 10, tzinfo=_UTC), datetime(2020, 1, 1, 10, tzinfo=_VIENNA)][kind]
+    extra = [("X-SOURCE", "sync"), ("X-CONFIRMED", "yes"), ("ALTREP", "cid:1")][:nparams]
     ev = Event()
-    ev.add("dtstart", dt)
+    ev.add("dtstart", dt, parameters=dict(extra))
     before = ev.to_ical()
-    v = vDatetime(dt)
+    v = vDatetime(dt, params=dict(extra))
     first = v.to_ical()
     params_after_first = list(v.params.items())
     second = v.to_ical()
